@@ -12,12 +12,12 @@ Absolute(o) == o.k = "mem" /\ o.b < 0 /\ o.i < 0
 Calibratable(i) ==
    IF MODE = "reg"
    THEN /\ i.q
-        /\ i.mn \notin StackMn \cup StringMn \cup FlowMn
+        /\ i.mn \notin StackMn \cup StringMn \cup FlowMn \cup {"xlat"}
         /\ \A j \in 1..Len(i.ops) : i.ops[j].k # "mem" \/ i.mn = "lea"
         /\ (i.mn = "lea" => i.ops[2].b # 4)
         /\ ~UsesEsp(i)
    ELSE /\ i.mn \notin FlowMn /\ i.mn # "lea"
-        /\ (i.mn \in StackMn \cup StringMn \/ \E j \in 1..Len(i.ops) : i.ops[j].k = "mem")
+        /\ (i.mn \in StackMn \cup StringMn \cup {"xlat"} \/ \E j \in 1..Len(i.ops) : i.ops[j].k = "mem")
         /\ \A j \in 1..Len(i.ops) : ~Absolute(i.ops[j])
         /\ (i.q \/ i.mn \in BitMn \cup StackMn \cup {"cmpxchg", "xadd", "xchg"})
 VARIABLES inst, txt, k, st, flt
